@@ -2,5 +2,6 @@ SPECIFICATION Spec
 CONSTANTS
   MaxMsgs = 3
   ArmFirst = FALSE
+  StartWaiting = FALSE
 INVARIANTS NoLostWakeup InOrder
 CONSTRAINT Emit
